@@ -30,6 +30,12 @@ func c13CommonTags(n int) map[string]string {
 		k, v := fmt.Sprintf("common%02d", i), fmt.Sprintf("cv%02d", i)
 		m[k], c13ExtraCommon[k] = v, v
 	}
+	if n > 0 {
+		// the larger configuration also has the service and env keys in its common tag map, with blank values (a
+		// templated configuration whose variable expands to nothing), next to the real values in Options.Service and
+		// Options.Env: blank means unset, every batch carries the configured service and env
+		m["service"], m["env"] = "", ""
+	}
 	return m
 }
 
@@ -213,7 +219,7 @@ func c13Run(kind string, ndest, queue, ncommon int, alphabet []string, hist []in
 		// (bounds handed over unsorted: ids and ranges follow the sorted bounds, not the caller's order)
 		// (... and two duration bounds beyond 2^53 ns that a float64 cannot tell apart)
 		big := time.Duration(1) << 53
-		vb, db := tally.ValueBuckets{2, 1}, tally.DurationBuckets{2 * time.Second, time.Second, big + 1, big}
+		vb, db := tally.ValueBuckets{2, 1, 1}, tally.DurationBuckets{2 * time.Second, time.Second, big + 1, big}
 		for _, op := range hist {
 			steps++
 			var a, b, c, d string
@@ -270,9 +276,10 @@ func c13Run(kind string, ndest, queue, ncommon int, alphabet []string, hist []in
 					h.t.ReportTimer(time.Duration(c13Ints[vi]))
 					want = append(want, wantKey(h.name, 3, 0, 0, c13Ints[vi], h.tags))
 				case "vhist":
-					// three buckets: (-inf,1] (1,2] (2,inf); ids increase with the bounds
+					// a bound given twice: four buckets (-inf,1] (1,1] (1,2] (2,inf); ids increase with the bounds, and a
+					// sample of the first bucket is not filed under the empty one that shares its upper bound
 					ups := []float64{1, 2, math.MaxFloat64, 1}
-					ids := []string{"0000", "0001", "0002", "0000"}
+					ids := []string{"0000", "0002", "0003", "0000"}
 					names := []string{"-infinity-1.000000", "1.000000-2.000000", "2.000000-infinity", "-infinity-1.000000"}
 					h.h.ValueBucket(0, ups[vi]).ReportSamples(c13Ints[vi])
 					want = append(want, wantKey(h.name, 1, c13Ints[vi], 0, 0, h.tags, fmt.Sprintf("%q=%q", "bucketid", ids[vi]), fmt.Sprintf("%q=%q", "bucket", names[vi])))
